@@ -868,7 +868,18 @@ func ruleMergeCloseOnce(c *Ctx, r *R) {
 				}
 				fromNext := true
 				ls := valueLeaves(errArg, d.calls, 0)
+				// a nil alternative (a forwarding helper returns nil for End / a failed send) is excluded where the Close sits
+				// under err != nil
+				nonNil := false
+				for _, gd := range guardsOf(b) {
+					if cf, ok := gd.asCmp(); ok && cf.op == token.NEQ && isNilConst(cf.y) && resolveVal(cf.x) == resolveVal(errArg) {
+						nonNil = true
+					}
+				}
 				for _, lf := range ls {
+					if nonNil && isNilConst(lf.v) {
+						continue
+					}
 					ex, ok := lf.v.(*ssa.Extract)
 					if !ok {
 						fromNext = false
@@ -983,6 +994,7 @@ func ruleMergeWorkerShape(c *Ctx, r *R) {
 	}
 	for _, g := range bi.spawned {
 		var next, send *ssa.Call
+		var nextChain []*ssa.Call
 		for _, d := range deepInstrs(g, 2) { // the loop may live in a helper the literal delegates to (m.forward(i))
 			call, ok := d.in.(*ssa.Call)
 			if !ok {
@@ -990,6 +1002,7 @@ func ruleMergeWorkerShape(c *Ctx, r *R) {
 			}
 			if call.Call.IsInvoke() && call.Call.Method.Name() == "Next" {
 				next = call
+				nextChain = d.calls
 			}
 			if cal := staticCallee(&call.Call); cal != nil && fname(cal) == "Send" && cal.Signature.Recv() != nil && isNamedType(cal.Signature.Recv().Type(), "stream", "PipeSender") {
 				send = call
@@ -1014,7 +1027,8 @@ func ruleMergeWorkerShape(c *Ctx, r *R) {
 		}
 		r.ok(nilPath, "stream.Merge|send-on-success-only", send.Pos(), "Send must be reached only after the input's error was tested (End / error paths must not forward the zero item)")
 		// the input index is the per-iteration copy: in[i] with i a captured variable
-		r.ok(strings.Contains(path(next.Call.Value), "["), "stream.Merge|own-input", next.Pos(), "each worker reads from its own element of in")
+		// (the stream may be handed to a forwarding helper as an argument: forwardToPipe(ctx, in[i], sender))
+		r.ok(strings.Contains(path(argOf(next.Call.Value, nextChain)), "["), "stream.Merge|own-input", next.Pos(), "each worker reads from its own element of in")
 	}
 }
 
